@@ -180,6 +180,11 @@ func (e *Environment) SaveGlobals(to io.Writer, maxValueLen int) (int, error) {
 			// fallthrough.
 		}
 		val := v.Inspect()
+		if ext, ok := v.(Extension); ok {
+			// The printed form of an extension is its signature and help, for people: `sin(float)`, which doesn't
+			// evaluate (and aborted the load() of everything saved after it); its name does, to the same extension.
+			val = ext.Name
+		}
 		if maxValueLen > 0 && len(val) > maxValueLen {
 			log.Warnf("Skipping %q as it's too long (%d > %d)", k, len(val), maxValueLen)
 			continue
